@@ -91,8 +91,9 @@ type Known struct {
 }
 
 // known_findings.txt format, one per line:
-//   finding: property=C13 obligation=<obligation id> <what fails>
-//   fixed:   property=C14 <commit> <what failed>
+//
+//	finding: property=C13 obligation=<obligation id> <what fails>
+//	fixed:   property=C14 <commit> <what failed>
 func loadKnown(path string) ([]Known, error) {
 	f, err := os.Open(path)
 	if err != nil {
